@@ -60,7 +60,13 @@ T = {
     "regex-chars": ("/d/v1.0-beta_x=1,y~2@z/{year}-{month}-{day}%{hour}.n.c", "hour", None, None, None, W_DEFAULT),
     "user-list": ("/d/{sat}/{year}{month}{day}.{sat}.nc", "day", None, "1 day", {"sat": "noaa18"}, W_DEFAULT),
 }
+# the same templates over other calendar windows (thorough tier): century rules, two-digit-year edges
+for _k, _w, _tag in (("plain", W_1900, "1900"), ("plain", W_2000, "2000"), ("end-hm", W_1900, "1900"), ("end-hm", W_2000, "2000"),
+                     ("full-end", W_1900, "1900"), ("full-end", W_2000, "2000"), ("doy-end", W_2000, "2000"), ("doy-end", W_1900, "1900"),
+                     ("year2", W_1965, "1965"), ("year2", W_2064, "2064"), ("millisecond", W_2000, "2000"), ("sequence", W_1900, "1900")):
+    T["%s@%s" % (_k, _tag)] = T[_k][:5] + (_w,)
 USER_REGEX = {"regex-user": {"prefix": r"[A-Z]{3}"}, "user-list": {"sat": ["noaa18", "metopa"]}, "sequence": {"id": r"\d{4}"}}
+USER_REGEX["sequence@1900"] = USER_REGEX["sequence"]
 UNITS = {"hour": timedelta(days=1), "minute": timedelta(hours=1), "second": timedelta(minutes=1)}
 ORDER = ["year", "month", "day", "hour", "minute", "second", "microsecond"]
 
@@ -259,7 +265,8 @@ BOUNDS = {"quick": {"templates": "16 templates (the five of test_fileset.py; yea
                     "dates": "every valid date-time at the template's resolution inside a calendar window: 2019-11 .. 2020-04 (year change, leap "
                              "day, doy 366), 1965-01 .. 1965-03 (two-digit year threshold), 1899-11 .. 1900-03 (100-rule); the real str.format and "
                              "the real re engine run on symbolic digit tokens"},
-          "thorough": {"templates": "all 19 templates (adds 2064 window, 400-rule year 2000, minute+second end, full end with doy and milliseconds)"}}
+          "thorough": {"templates": "all 19 templates (adds 2064 window, 400-rule year 2000, minute+second end, full end with doy and milliseconds) and "
+                                    "12 template x window combinations more (partial / complete / doy ends, year2, milliseconds over the 1900, 2000, 1965, 2064 windows)"}}
 OUTSIDE = ["years outside the windows (the full ranges 1965-2064 / 1000-9999 are not covered)", "an end given with end_day / end_month but "
            "without the coarser fields (the roll-over unit there is 31 / 366 days; the statement speaks of hour, minute, second ends)",
            "the re engine and str.format themselves (executed for real)", "Windows path separators", "decisecond / centisecond / microsecond placeholders"]
